@@ -37,6 +37,12 @@ def check(ctx: Ctx) -> None:
     N.r_id_discipline(ctx, "R05.11")
     # the map slot comes back through the wrapped end callback, an `async def` run by execute_optional: it must be awaited there
     S.r_execute_optional(ctx, "R05.12")
+    # "nothing skipped": a map still consuming when gather_and_close() is called loses its remaining elements if the close stops
+    # waiting for its spawner and forgets the registries under it (the tasks it starts afterwards end with a KeyError, the map slot
+    # never comes back, the spawner dies with PoolIsClosed) - the close waits for the spawners the registry holds when the wait starts
+    from . import close as CL
+    CL.r_gather_complete(ctx, "R05.13", ("gather_and_close",))
+    CL.r_fresh_members(ctx, "R05.14", clauses=("copy",))
 
 
 def r_star_table(ctx: Ctx, rule: str) -> None:
@@ -256,7 +262,8 @@ def r_map_bound(ctx: Ctx, rule: str) -> None:
             t = s.callee.targets[0]
             e = ctx.call_arg(s.ast, t, "end_callback")
             ok = False
-            if isinstance(e, ast.Name):
+            if isinstance(e, (ast.Name, ast.Attribute)):
+                # (a local, or a field of a record built in the consumer: `callbacks.end_callback`)
                 vals = [(fr_, v) for fr_, _e, v in ctx.vals.leaves_at(s, e)]
                 ok = bool(vals) and all(isinstance(v, ast.Call) and any(x.name == "_get_map_end_callback" for x in ctx.an.scope(fr_).callee(v).targets) for fr_, v in vals)
             elif isinstance(e, ast.Call):
